@@ -1,7 +1,7 @@
 (* Property C14 - only statements, each closed by [exact]. *)
 From Coq Require Import NArith ZArith List Bool.
 Import ListNotations.
-Require Import UV.C14.Model UV.C14.Proofs UV.C14.Patch UV.C14.Pages UV.C14.Layout UV.C14.SizeOpt UV.C14.Detect UV.C14.PreEntry UV.C14.Modules.
+Require Import UV.C14.Model UV.C14.Proofs UV.C14.Patch UV.C14.Pages UV.C14.Layout UV.C14.SizeOpt UV.C14.Detect UV.C14.PreEntry UV.C14.Modules UV.C14.Exec.
 Local Open Scope N_scope.
 
 (* ---- which functions are selected ---- *)
@@ -294,6 +294,34 @@ Theorem C14_patch_inside_symbol_refuted :
   /\ fst (patch_func_matched O0 spill_cfg [spill_A; spill_B] [] (spill_mem, stats0)) 6 <> spill_mem 6.
 Proof. exact spill_refuted. Qed.
 Print Assumptions C14_patch_inside_symbol_refuted.
+
+(* ---- "the program still runs": executing a patched entry ---- *)
+(* In a three-instruction machine (5-byte NOP forms, call rel32, the trampoline's jmp *1(%rip), and
+   __fentry__ as an oracle step that returns to the address on top of the stack with everything else
+   preserved - property C01's subject): the original entry is one NOP ... *)
+Theorem C14_original_entry : forall m e fentry,
+  is_nop_sig (rd m e 5) = true -> fentry <> Z.of_N e ->
+  forall s0, st_rip s0 = Z.of_N e ->
+  step m fentry s0 = Some {| st_rip := (Z.of_N e + 5)%Z; st_rsp := st_rsp s0; st_stk := st_stk s0 |}.
+Proof. exact original_entry. Qed.
+Print Assumptions C14_original_entry.
+
+(* ... and the patched entry (memory after mcount_setup_trampoline + patch_fentry_code) reaches the same
+   address with the same stack pointer after call, jmp and the hook's return; the only stack slot that
+   differs is the one below the stack pointer (dead at a function entry) *)
+Theorem C14_patched_entry_equivalent : forall m e tramp fentry,
+  is_nop_sig (rd m e 5) = true ->
+  (0 <= tramp < 18446744073709551616)%Z ->
+  (-2147483648 <= tramp - (Z.of_N e + 5) < 2147483648)%Z ->
+  (Z.of_N e + 5 <= tramp)%Z ->
+  (0 <= fentry < 18446744073709551616)%Z ->
+  fentry <> Z.of_N e -> fentry <> tramp ->
+  forall s0, st_rip s0 = Z.of_N e ->
+  exists s3, steps 3 (patched m e tramp fentry) fentry s0 = Some s3
+             /\ st_rip s3 = (Z.of_N e + 5)%Z /\ st_rsp s3 = st_rsp s0
+             /\ forall a, a <> (st_rsp s0 - 8)%Z -> st_stk s3 a = st_stk s0 a.
+Proof. exact patched_entry. Qed.
+Print Assumptions C14_patched_entry_equivalent.
 
 (* ---- page permissions ---- *)
 Local Open Scope Z_scope.
